@@ -80,7 +80,6 @@ pipe_reap(void *arg)
 	p->p_proto_ops.pipe_stop(p->p_proto_data);
 	p->p_tran_ops.p_stop(p->p_tran_data);
 
-	NNI_VERIF_PT(NNI_VP_PIPE_REMOVE);
 	nni_pipe_remove(p);
 
 	nni_pipe_rele(p);
